@@ -32,6 +32,42 @@ CLAIMED = {
  'C08': ("bounded exhaustive enumeration of segmented arrays and operation arguments, list-of-lists decoding; exhaustive exploration of iterator call sequences",
          "Every segmented array with <=3-4 segments of size <=2 (of finite functions and of labels), every pair, every re-indexing and value map, and every raw (sizes, codomain, length) triple is run through the real API and decoded to lists of lists with the size invariant re-checked; the iterator state machines are explored over every call sequence of next/len/size_hint of length n+2 against a cursor model.",
          "<=4 segments of size <=2; codomain <=3", "DESIGN.md §4 C08"),
+ 'C09': ("explicit-state exploration: exhaustive inputs (all pending-pair lists) + breadth-first search over unify/quotient/new_node histories with exact-state deduplication + live-object history replay",
+         "Every lax (open) hypergraph of the universes with every list of up to 3 pending pairs is quotiented by the real code (on the open hypergraph and on the bare hypergraph), then again; success/failure, the returned map (as a partition), every rewritten reference, the cleared pending list and - on failure - every public field are compared with the reference. Interleavings of unify/quotient/new_node are explored breadth-first to depth 8-12 and replayed on one live object.",
+         "<=4-5 nodes, <=3 pending pairs; numbering of merged nodes is free", "DESIGN.md §4 C09"),
+ 'C10': ("bounded exhaustive enumeration; real to_strict/from_strict and lax operations vs strict operations, compared by isomorphism / exact data",
+         "Round trips strict->lax->strict and lax->strict->lax are compared as exact data on every diagram; for every ordered pair of label-consistent lax diagrams with pending unifications compose (defined iff types match), lax_compose (iff arities match) and tensor are strictified by the real to_strict and compared up to isomorphism with the strict operation on strictified arguments; tensor_assign, append and coproduct_assign are compared field for field with the pure forms; identity, twist, singleton, spider and dagger likewise.",
+         "<=2-3 nodes, <=1-2 hyperedges, <=1-2 pending pairs", "DESIGN.md §4 C10"),
+ 'C11': ("explicit-state model checking of the implementation: breadth-first search over all builder-call histories with exact-state deduplication, refinement check against a plain list model on every transition, live-object depth-first replay, serde round trip at every state",
+         "From the empty diagram every builder call with every argument inside the boundary is applied to a real object rebuilt from the state; return value and every public field are compared with the plain list model; out-of-range identifiers must be rejected; the search runs to its fixed point inside the boundary on lax::OpenHypergraph and lax::Hypergraph (deletion witness observable); at every reached state the serde_json round trip and the documented JSON shape are checked; all histories of length 4-5 are replayed on one live object.",
+         "<=3 nodes, <=1-2 hyperedges, <=1-2 pending pairs, interfaces <=1; u8 labels", "DESIGN.md §4 C11"),
+ 'C12': ("bounded exhaustive enumeration of programs (36-45 functors) x inputs (all diagrams), real spider-decomposition code vs literal substitution on the plain model up to isomorphism",
+         "Each functor of a finite family (object images of length 0, 1, 2; operation images: single operation, composite, spider-only, disconnected, un-quotiented lax composite) is applied by the real strict Functor machinery and by the lax trait through DynFunctor to every diagram of the universes; the result must be isomorphic to generator-wise substitution computed on the plain model and have type F(A)->F(B); functoriality laws and both Identity functors are checked through the public API.",
+         "diagrams <=2-3 nodes, <=1-2 hyperedges; finite functor family", "DESIGN.md §4 C12"),
+ 'C13': ("bounded exhaustive enumeration of programs x inputs on the native lax functor path, compared with the strict path and with substitution; witness checked by definition",
+         "For every functor of the family and every quotient-free lax diagram, try_define_map_arrow must return a diagram that quotients to something isomorphic to the strict-path image and to the reference substitution; map_arrow_witness must relate input node i to exactly |F(label)| output nodes carrying F(label) in order and push the interfaces correctly through the quotient; every diagram with a pending unification must be refused.",
+         "diagrams <=2-3 nodes, <=1-2 hyperedges; finite functor family", "DESIGN.md §4 C13"),
+ 'C14': ("bounded exhaustive enumeration of optics x diagrams (routing, up to iso with a reference substitution) and of circuits x inputs (reverse derivative vs forward-mode dual numbers), real evaluation",
+         "127 (quick) / 729 routing optics with labelled singleton images are applied (strict Optic, lax map_arrow/map_adapted) to every diagram; the result must be isomorphic to the reference optic substitution with the right interleaved type, the adapted form must have type FA●RB->FB●RA on the same hypergraph and stay monogamous; every monogamous acyclic polynomial circuit with <=2 inputs and <=3 generators (every wiring, output order and edge order) is differentiated by optic composition with the standard lenses and evaluated by the real evaluator on representatives of Z/2^64: it must return (f(x), J^T dy).",
+         "small-scope bounds; 5 ring representatives; dy from unit vectors plus two (linearity)", "DESIGN.md §4 C14"),
+ 'C15': ("bounded exhaustive enumeration of all small hypergraphs, real layer()/layered_operations() (and hooked graph routines) vs the definition; two build profiles",
+         "Every hypergraph with <=3 nodes and <=3 operations of arity <=2 (thorough: 4 operations, 4-5 nodes, arity 3) - dependency multiplicities up to 4-9, self-dependence, cycles with tails, zero-arity operations - is layered by the real code; unvisited flags must be exactly the operations on or downstream of a cycle, layers must respect dependencies, start at 0 and use exactly longest-chain many; the grouped form must list visited operations once in their layer; converse, operation adjacency, in-degree and Kahn are compared with reference loops through the verif-hooks wrappers.",
+         "<=3-5 nodes, <=3-4 operations; any valid layering accepted", "DESIGN.md §4 C15"),
+ 'C16': ("bounded exhaustive enumeration of programs over a fixed-arity signature x input vectors, real eval with instrumented callback vs recursive reference interpreter; two build profiles",
+         "Every diagram over a 9-letter signature within the bounds (all numberings) is classified by the reference; cyclic ones must be refused, acyclic ones must return a result, and for single-writer programs the outputs and the multiset of interpreter calls must equal the reference for every input vector over {0,1,2,3}.",
+         "<=3-4 nodes, <=2-4 operations, interfaces <=2", "DESIGN.md §4 C16"),
+ 'C17': ("bounded exhaustive enumeration of open hypergraphs and node indices, predicates vs definitions; two build profiles (overflow checks on/off)",
+         "is_acyclic (both entry points), is_monogamous, in_degree and out_degree are run on every open hypergraph with <=3 nodes, <=2 hyperedges of arity <=2 and interfaces <=2 (thorough: 4 nodes, 3 hyperedges, arity 3) and every node; any panic or wrong answer is a violation; both a debug-like and a release-like build are run.",
+         "<=3-4 nodes; labels irrelevant", "DESIGN.md §4 C17"),
+ 'C18': ("bounded exhaustive enumeration of (G, H, w, x) with all maps (typed and mistyped), and of all sub-hypergraph inclusions; brute-force definitions; two build profiles",
+         "For all pairs of small hypergraphs and ALL maps between their node and edge sets acceptance must coincide with the definition and a rejection must name a condition that really fails; is_monomorphism and is_convex_subgraph are compared on every accepted arrow and on every sub-hypergraph inclusion (sorted and reversed) against a path search over (node, used-outside-edge) states.",
+         "<=2-3 nodes, <=2 hyperedges (convexity: <=3-4 nodes, <=3-4 hyperedges)", "DESIGN.md §4 C18"),
+ 'C19': ("bounded exhaustive enumeration of expression programs/histories through the real Var interface and of lax terms for forget; isomorphism with a reference term / reference rewrite; real evaluation",
+         "Every expression program within the bounds (all operator overloads, operation/fn_operation, sharing, interleaved Var::new, repeated and bare interface variables, a leaked handle) is built by the real code and compared up to isomorphism with the reference term; forget and forget_monogamous are compared with the reference rewrite on every Var-built term and on every label-consistent lax term with variable hyperedges of arity 0..2 x 0..2, must keep the type, and the forgotten Var-built terms must evaluate to the expression's value.",
+         "<=2 declared variables, <=2-3 applications; lax terms <=3 nodes, <=1-2 hyperedges", "DESIGN.md §4 C19"),
+ 'C20': ("deviation-bounded exhaustive exploration of backend choice tapes (CHESS-style iterative bounding on environment answers) x exhaustive inputs, on a second ArrayKind whose conformance is itself checked",
+         "The strict algorithms are instantiated at a second array backend whose four open choices follow a choice tape; for every input of the universes every tape with <=1 (quick) / <=2 deviations is executed and the result compared with the Vec backend's (isomorphic diagrams, identical predicates, Option-ness and evaluation outputs, layer validity); the backend's own conformance to the array contract is established by running the C07 oracle under every alternative of every choice point.",
+         "deviation bound 1-2, <=4096 executions per input; only Vec and adversarial variants of it", "DESIGN.md §3.5, §4 C20"),
 }
 NOT_YET = "check not built yet in this revision of /verif (work in progress; see DESIGN.md §4)"
 
